@@ -214,7 +214,7 @@ def _inputs_of(unit):
 
 
 def resolve(label):
-    if label[0] in ("atom", "construct", "example"):
+    if label[0] in ("atom", "construct", "example", "stdlib"):
         return c03.get_input(label)
     if label[0] == "expr":
         return c15.consumer_program(label[1], label[2])
